@@ -34,6 +34,12 @@ func genNotes(t *rapid.T) sim.Scenario {
 	p := profile
 	p.PNote = 14
 	p.PCancel = 24
+	// No server callbacks here: on a push-enabled server a member without a
+	// method that bears the id of an outstanding callback is consumed by it, a
+	// record made of such members may thus never enter the queue, and the
+	// sequential model (which has to know which record waits at the barrier)
+	// cannot tell. Part scenarios keeps the callbacks; nothing waits there.
+	p.AllowPush, p.PPush = false, 0
 	return gen.ServerScenario(t, p)
 }
 
